@@ -17,6 +17,8 @@ def tokEv (s : String) : Option Ev :=
   else if s == "c" || s == "cd" then some .cancel      -- cd: the caller's context ends by its deadline
   else if s.startsWith "td:" then (unhex (s.drop 3).toString).map .tdata   -- data together with a deadline error
   else if s.startsWith "d:" then (unhex (s.drop 2).toString).map .data
+  -- sd: bytes delivered by a read that returns after the call's total read timeout has passed (time is not modelled)
+  else if s.startsWith "sd:" then (unhex (s.drop 3).toString).map .data
   else if s.startsWith "e:" then (unhex (s.drop 2).toString).map .eof
   else if s.startsWith "x:" then (unhex (s.drop 2).toString).map .ioerr
   else none
